@@ -17,7 +17,8 @@
 //	pubcat F              read F from the last node handed to Root.updateChildEntry (the value given to the republisher)
 //	mode W F P            File.Mode(), optionally parking at p = File.Mode:rlocked (between the lock and GetNode)
 //	mtime W F P           File.ModTime(), same
-//	chmod W F M           File.SetMode(M)
+//	chmod W F M [l]       File.SetMode(M), optionally parking after a directory's local update (updateChildEntry:localDone)
+//	lschmod W F M         ForEachEntry of F's directory whose callback starts SetMode(M) on F in another goroutine
 package main
 
 import (
@@ -247,6 +248,30 @@ func (e *env) quiesce() []string {
 	}
 }
 
+// waitStuck returns when goroutine gid has finished (done has a value) or waits for a lock.
+func (e *env) waitStuck(gid int64, done chan string) {
+	confirm := 0
+	for i := 0; i < 20000; i++ {
+		if len(done) > 0 {
+			return
+		}
+		if i < 3 {
+			time.Sleep(200 * time.Microsecond)
+			continue
+		}
+		if lockWait(e.waitReasons()[gid]) {
+			confirm++
+			if confirm >= 3 {
+				return
+			}
+		} else {
+			confirm = 0
+		}
+		time.Sleep(300 * time.Microsecond)
+	}
+	panic("harness: helper goroutine neither finished nor blocked")
+}
+
 func (e *env) start(w *worker, park string, f func() string) {
 	w.mu.Lock()
 	w.running, w.parkAt, w.parked, w.hasRes = true, park, "", false
@@ -399,6 +424,7 @@ func exec(c vh.Case, o *vh.Out) {
 	catCheck := make([]func(got string), nWorkers)
 	modeParked := -1 // worker parked inside Mode/ModTime
 	chmodBlocked := false
+	chmodW := -1 // worker whose SetMode is under way (parked, blocked or inside lschmod)
 	// monitor bookkeeping (the property's own notions, independent of the model)
 	acked := []string{"0000", "0000", "0000"} // content of the last acknowledged write per file
 	fullAck := []string{"", "", ""}           // content of the last acknowledged write that was flushed up (Flush, or Close with Sync)
@@ -618,18 +644,73 @@ func exec(c vh.Case, o *vh.Out) {
 			o.Kind(f[0])
 		case "chmod":
 			w, fi := wIdx(1), vh.Atoi(f[2])
-			if busyW(w) || anyFd() || chmodBlocked {
+			if busyW(w) || anyFd() || chmodBlocked || chmodW >= 0 {
 				res = "refused"
 				break
 			}
 			m, _ := strconv.ParseUint(f[3], 8, 32)
+			pk := ""
+			if len(f) > 4 && modeParked < 0 {
+				pk = parkPoints[f[4]] // l: pause the upward propagation of the new node after a directory's local update
+			}
 			pend[w.id] = func(ok bool) {
 				if ok {
 					fullAck[fi] = acked[fi]
 				}
 			}
-			e.start(w, "", func() string { return errStr(e.file(fi).SetMode(os.FileMode(m))) })
+			chmodW = w.id
+			e.start(w, pk, func() string { return errStr(e.file(fi).SetMode(os.FileMode(m))) })
 			o.Kind("chmod")
+			if pk != "" {
+				o.Kind("chmod-parked")
+			}
+		case "lschmod":
+			// Directory.ForEachEntry of the file's directory; its callback (which runs with the directory lock held)
+			// starts SetMode on the file in another goroutine and waits until that goroutine cannot go on
+			w, fi := wIdx(1), vh.Atoi(f[2])
+			if busyW(w) || modeParked >= 0 || anyFd() || chmodBlocked || chmodW >= 0 {
+				res = "refused"
+				break
+			}
+			m, _ := strconv.ParseUint(f[3], 8, 32)
+			pend[w.id] = func(ok bool) { fullAck[fi] = acked[fi] }
+			chmodW = w.id
+			e.start(w, "", func() string {
+				dirPath := "/"
+				if fi < 2 {
+					dirPath = "/d"
+				}
+				n, err := mfs.Lookup(e.root, dirPath)
+				if err != nil {
+					return "err"
+				}
+				file := e.file(fi)
+				var names []string
+				var helperDone chan string
+				err = n.(*mfs.Directory).ForEachEntry(context.Background(), func(nl mfs.NodeListing) error {
+					names = append(names, fmt.Sprintf("%s:%d", nl.Name, nl.Size))
+					if helperDone == nil {
+						helperDone = make(chan string, 1)
+						gidCh := make(chan int64, 1)
+						go func() {
+							gid := goid()
+							e.byGid.Store(gid, w) // so that the hooks attribute what it does to this worker
+							gidCh <- gid
+							r := errStr(file.SetMode(os.FileMode(m)))
+							e.byGid.Delete(gid)
+							helperDone <- r
+						}()
+						e.waitStuck(<-gidCh, helperDone)
+					}
+					return nil
+				})
+				if err != nil {
+					return "err"
+				}
+				sort.Strings(names)
+				return strings.Join(names, ",") + "/" + <-helperDone
+			})
+			o.Kind("lschmod")
 		default:
 			o.Emit("bad-op")
 			continue
@@ -650,6 +731,9 @@ func exec(c vh.Case, o *vh.Out) {
 			} else if w.hasRes {
 				s = "done:" + w.result
 				w.hasRes = false
+				if chmodW == i {
+					chmodW = -1
+				}
 				if pend[i] != nil {
 					pend[i](w.result == "ok")
 					pend[i] = nil
